@@ -30,7 +30,8 @@ func c17Schema() TxnSchema {
 	spec := SchemaSpec{Name: "db", Tables: []TableSpec{
 		{Name: "Ctr", IsRoot: true, Indexes: [][]string{{"name"}}, Cols: []ColSpec{{Name: "name", Type: str}, {Name: "n", Type: num}}},
 		{Name: "Log", IsRoot: true, Cols: []ColSpec{{Name: "name", Type: str}, {Name: "n", Type: num}}},
-		{Name: "Uniq", IsRoot: true, Indexes: [][]string{{"name"}}, Cols: []ColSpec{{Name: "name", Type: str}, {Name: "n", Type: num}}},
+		// two unique indexes: the competition is for a value of the first or of the second one
+		{Name: "Uniq", IsRoot: true, Indexes: [][]string{{"name"}, {"alt"}}, Cols: []ColSpec{{Name: "name", Type: str}, {Name: "alt", Type: str}, {Name: "n", Type: num}}},
 		{Name: "Holder", IsRoot: true, Indexes: [][]string{{"name"}}, Cols: []ColSpec{{Name: "name", Type: str}, {Name: "n", Type: num},
 			{Name: "items", Type: ColType{Kind: "set", Key: "uuid", Min: 0, Max: -1}, RefTable: "Item", RefType: "strong"}}},
 		{Name: "Item", IsRoot: false, Cols: []ColSpec{{Name: "name", Type: str}, {Name: "n", Type: num}}},
@@ -239,7 +240,12 @@ func c17Run(r *Run, h int) {
 					ops = []OperationJ{{Op: "update", Table: "Ctr", Where: where, Row: Row{"n": VA(AI(cur + 1))}}, logOp}
 				case "claim":
 					nm := names[lr.Intn(len(names))]
-					ops = []OperationJ{{Op: "insert", Table: "Uniq", UUID: mkUUID(200000 + ci*1000 + k), Row: Row{"name": VA(AS(nm)), "n": VA(AI(int64(ci)))}}, logOp}
+					row := Row{"name": VA(AS(nm)), "alt": VA(AS(fmt.Sprintf("own-%d-%d", ci, k))), "n": VA(AI(int64(ci)))}
+					if lr.Intn(2) == 0 {
+						// the contested value is the one of the second index
+						row = Row{"name": VA(AS(fmt.Sprintf("own-%d-%d", ci, k))), "alt": VA(AS(nm)), "n": VA(AI(int64(ci)))}
+					}
+					ops = []OperationJ{{Op: "insert", Table: "Uniq", UUID: mkUUID(200000 + ci*1000 + k), Row: row}, logOp}
 				case "lookclaim":
 					// look first, then claim: the transaction reads the rows that hold the name (they enter
 					// its working set unchanged) and inserts a row with that name all the same
@@ -248,7 +254,7 @@ func c17Run(r *Run, h int) {
 					if lr.Intn(2) == 0 {
 						look.Where = nil
 					}
-					ops = []OperationJ{look, {Op: "insert", Table: "Uniq", UUID: mkUUID(400000 + ci*1000 + k), Row: Row{"name": VA(AS(nm)), "n": VA(AI(int64(ci)))}}, logOp}
+					ops = []OperationJ{look, {Op: "insert", Table: "Uniq", UUID: mkUUID(400000 + ci*1000 + k), Row: Row{"name": VA(AS(nm)), "alt": VA(AS(fmt.Sprintf("look-%d-%d", ci, k))), "n": VA(AI(int64(ci)))}}, logOp}
 				case "share", "drop", "dropclaim":
 					// an item referenced from both holders; a reference dropped by a transaction that then loses
 					// the competition for a unique name (it is rejected after its reference bookkeeping ran);
@@ -263,7 +269,7 @@ func c17Run(r *Run, h int) {
 						Mutations: []MutationJ{{Col: "items", Mutator: mut, Val: VS(AU(item))}}}}
 					if kind == "dropclaim" {
 						nm := names[lr.Intn(len(names))]
-						ops = append(ops, OperationJ{Op: "insert", Table: "Uniq", UUID: mkUUID(300000 + ci*1000 + k), Row: Row{"name": VA(AS(nm)), "n": VA(AI(int64(ci)))}})
+						ops = append(ops, OperationJ{Op: "insert", Table: "Uniq", UUID: mkUUID(300000 + ci*1000 + k), Row: Row{"name": VA(AS(nm)), "alt": VA(AS(fmt.Sprintf("drop-%d-%d", ci, k))), "n": VA(AI(int64(ci)))}})
 					}
 					ops = append(ops, logOp)
 				case "move":
@@ -494,13 +500,15 @@ func c17Run(r *Run, h int) {
 				return
 			}
 		case "Uniq":
-			uniq[row.Row["name"].A.S]++
+			uniq["name="+row.Row["name"].A.S]++
+			uniq["alt="+row.Row["alt"].A.S]++
 		}
 	}
 	claimed := map[string]int{}
 	for _, t := range byMarker {
 		if t.Kind == "claim" && t.Accepted {
-			claimed[t.Ops[0].Row["name"].A.S]++
+			claimed["name="+t.Ops[0].Row["name"].A.S]++
+			claimed["alt="+t.Ops[0].Row["alt"].A.S]++
 		}
 	}
 	for nm, k := range claimed {
